@@ -203,7 +203,7 @@ func (g *gen) opMerge() (string, int) {
 	return fmt.Sprintf("merge 0 %d %s %s", g.now, ov, silx.MeshesStr(b)), -1
 }
 
-// an interleaved Mutes: 1-2 store operations at q1 / q2 / w
+// an interleaved Mutes: 1-2 store operations at q1 / e1 / q2 / e2 / w
 func (g *gen) imutesLine(p string) string {
 	r := g.r
 	ls := map[string]string{}
@@ -229,7 +229,7 @@ func (g *gen) imutesLine(p string) string {
 		if op == "" {
 			op, _ = g.opCreate(ls)
 		}
-		pt := hx.Pick(r, []string{"q1", "q1", "q2", "w"})
+		pt := hx.Pick(r, []string{"q1", "q1", "q1", "q2", "e1", "e2", "w"})
 		line += " " + pt + "~" + strings.ReplaceAll(op, " ", "~")
 	}
 	return line
